@@ -32,7 +32,8 @@ MANIFEST = {
              'C18_batch_except_eq_sequential, C18_except_skips_exactly_failing, C18_except_unlisted_surfaces -- Batch with max_workers; C18_store_write_parallel_eq_serial, '
              'C18_store_read_parallel_eq_serial, C18_store_read_parallel_agrees, C18_store_roundtrip_parallel -- zipped stores with read/write workers, over the `multiprocess` '
              'decisions REGENERATED from store_zip.py; C18_config_map_worker_settings_uniform, C18_config_map_rejects_misaligned -- StoreConfigMap, over the regenerated '
-             '_ALIGN_WITH_DEFAULT_ATTRS and pool-argument names. Refuted/C18.v: witnesses of the two known findings. '
+             '_ALIGN_WITH_DEFAULT_ATTRS and pool-argument names; C18_pool_eq_sequential_source_shapes -- over the argument shapes of arg_gen() / apply_iter_items regenerated from '
+             'node_iter.py. Refuted/C18.v: witnesses of the three known findings. '
              'Correspondence: public API through real Thread/ProcessPoolExecutors under ENFORCED completion schedules (every k-feasible permutation of the futures for small n), '
              'max_workers 1..8, chunksize 1..n+1, every iterator interface (elements, arrays, Series, tuples, groups, group labels, windows, hierarchical labels, Bus; values and '
              'items forms), Batch apply/apply_items/*_except, zipped TSV stores (read_many/write, hooks through a Frame subclass run inside the workers), failing tasks at every '
@@ -42,7 +43,11 @@ MANIFEST = {
              'proved from CPython; pickling between processes, the GIL and interleavings inside concurrent.futures are assumed. Batch attribute/operator forms and Bus/Batch '
              'zipped-store round trips (tsv, csv, pickle) are compared parallel-vs-sequential on the Python side only; the per-frame codecs are abstract in the theorems. '
              'Known findings (explicit errors, not silent wrong answers): *_except forms refuse chunksize != 1; Frame.iter_tuple default namedtuples cannot be pickled to a '
-             'process pool. trusted: Coq kernel, hand models SF/Pool.v SF/PoolStore.v, ast extractor generate(), harness.'),
+             'process pool; reflected arithmetic operators on a process-pool Batch (local lambda). Python-side only (no Coq model): apply_pool(mapping) error class beyond '
+             'KeyError, every Batch attribute/selector/operator/exporter route, Bus over a zipped store with read workers (max_persist None / 1 / batches, selections, label '
+             'encoders; S evaluated on names and ids), FrameGO/FrameHE pickle conversion. NOT covered: Quilt iterators; map_any/map_fill (no pool form); parquet/xlsx/sqlite/hdf5 '
+             'stores (no pyarrow / no worker path); Bus LRU bookkeeping under max_persist (C17); schedules after a fatal failure; more than one unpicklable task on a process '
+             'pool (CPython 3.12.1 can deadlock at shutdown). trusted: Coq kernel, hand models SF/Pool.v SF/PoolStore.v, ast extractor generate(), harness.'),
     'technique': 'refinement proof M=S for all schedules + generated decisions + schedule-enforced differential correspondence',
 }
 PROPERTY_FILES = ['Properties/C18.v', 'Properties/C18Store.v']
@@ -72,6 +77,7 @@ WAIT_TIMEOUT = 45.0
 
 FINDING_EXCEPT_CHUNK = 'C18-except-chunksize'
 FINDING_NAMEDTUPLE = 'C18-namedtuple-pickle'
+FINDING_REFLECTED = 'C18-batch-reflected-pickle'
 _STATS = {'enforced': 0, 'timeout': 0, 'mismatch': 0}
 
 
@@ -198,6 +204,88 @@ def _strs(xs):
     return '[' + '; '.join('"%s"' % x for x in xs) + ']'
 
 
+def _shape_of(args, kname, vname, what):
+    names = []
+    for a in args:
+        if not isinstance(a, ast.Name) or a.id not in (kname, vname):
+            raise ValueError(f'{what}: argument is not the key or the value variable')
+        names.append('k' if a.id == kname else 'v')
+    code = {('v',): 'ShV', ('k',): 'ShK', ('k', 'v'): 'ShKV', ('v', 'k'): 'ShVK'}.get(tuple(names))
+    if code is None:
+        raise ValueError(f'{what}: unsupported argument shape {names}')
+    return code
+
+
+def _arg_shapes(repo):
+    '''What the applied function receives: pooled form = what arg_gen() yields (node_iter.py:112-121), sequential form = the call in
+    apply_iter_items (node_iter.py:299-302); for the VALUES and the ITEMS yield type.  Fails closed on any other shape of the source.'''
+    ni = _parse(repo, f'{_CORE}/node_iter.py')
+    cls = _class(ni, 'IterNodeDelegate')
+    par = _method(cls, '_apply_iter_items_parallel')
+    branch = None
+    for node in par.body:
+        if isinstance(node, ast.If) and isinstance(node.test, ast.Name) and node.test.id == 'yt_is_values':
+            branch = node
+    if branch is None:
+        raise ValueError('_apply_iter_items_parallel: `if yt_is_values:` not found')
+
+    def gen_shape(stmts, what):
+        fns = [n for n in stmts if isinstance(n, ast.FunctionDef) and n.name == 'arg_gen']
+        if len(fns) != 1 or len(fns[0].body) != 1 or not isinstance(fns[0].body[0], ast.For):
+            raise ValueError(f'{what}: arg_gen is not a single for loop')
+        loop = fns[0].body[0]
+        if not (isinstance(loop.target, ast.Tuple) and len(loop.target.elts) == 2 and all(isinstance(e, ast.Name) for e in loop.target.elts)):
+            raise ValueError(f'{what}: loop target is not (key, value)')
+        kname, vname = loop.target.elts[0].id, loop.target.elts[1].id
+        if not (isinstance(loop.iter, ast.Call) and isinstance(loop.iter.func, ast.Attribute) and loop.iter.func.attr == '_func_items'):
+            raise ValueError(f'{what}: does not iterate self._func_items()')
+        if len(loop.body) != 2 or loop.orelse:
+            raise ValueError(f'{what}: loop body is not [record key; yield argument]')
+        rec, yld = loop.body
+        if not (isinstance(rec, ast.Expr) and isinstance(rec.value, ast.Call) and isinstance(rec.value.func, ast.Attribute) and rec.value.func.attr == 'append'
+                and isinstance(rec.value.func.value, ast.Name) and rec.value.func.value.id == 'func_keys'
+                and len(rec.value.args) == 1 and isinstance(rec.value.args[0], ast.Name) and rec.value.args[0].id == kname):
+            raise ValueError(f'{what}: the key is not appended to func_keys unconditionally')
+        if not (isinstance(yld, ast.Expr) and isinstance(yld.value, ast.Yield) and yld.value.value is not None):
+            raise ValueError(f'{what}: no unconditional yield')
+        val = yld.value.value
+        return _shape_of(val.elts if isinstance(val, ast.Tuple) else [val], kname, vname, what)
+    pool_v = gen_shape(branch.body, 'arg_gen (VALUES)')
+    pool_i = gen_shape(branch.orelse, 'arg_gen (ITEMS)')
+    # zip(func_keys, executor.map(func, arg_gen(), chunksize=chunksize))
+    ok = False
+    for node in ast.walk(par):
+        if isinstance(node, ast.Call) and isinstance(node.func, ast.Name) and node.func.id == 'zip' and len(node.args) == 2:
+            a0, a1 = node.args
+            if (isinstance(a0, ast.Name) and a0.id == 'func_keys' and isinstance(a1, ast.Call) and isinstance(a1.func, ast.Attribute) and a1.func.attr == 'map'
+                    and len(a1.args) == 2 and isinstance(a1.args[0], ast.Name) and a1.args[0].id == 'func'
+                    and isinstance(a1.args[1], ast.Call) and isinstance(a1.args[1].func, ast.Name) and a1.args[1].func.id == 'arg_gen'):
+                ok = True
+    if not ok:
+        raise ValueError('_apply_iter_items_parallel: `zip(func_keys, executor.map(func, arg_gen(), ...))` not found')
+    seq = _method(cls, 'apply_iter_items')
+    sbranch = [n for n in seq.body if isinstance(n, ast.If)]
+    if len(sbranch) != 1:
+        raise ValueError('apply_iter_items: single if/else on the yield type not found')
+    t = sbranch[0].test
+    if not (isinstance(t, ast.Compare) and isinstance(t.ops[0], ast.Is) and isinstance(t.comparators[0], ast.Attribute) and t.comparators[0].attr == 'VALUES'):
+        raise ValueError('apply_iter_items: test is not `self._yield_type is IterNodeType.VALUES`')
+
+    def seq_shape(stmts, what):
+        if len(stmts) != 1 or not (isinstance(stmts[0], ast.Expr) and isinstance(stmts[0].value, ast.YieldFrom) and isinstance(stmts[0].value.value, ast.GeneratorExp)):
+            raise ValueError(f'{what}: not `yield from (generator expression)`')
+        ge = stmts[0].value.value
+        comp = ge.generators[0]
+        if len(ge.generators) != 1 or comp.ifs or not (isinstance(comp.target, ast.Tuple) and len(comp.target.elts) == 2):
+            raise ValueError(f'{what}: generator is not `for k, v in ...` without condition')
+        kname, vname = comp.target.elts[0].id, comp.target.elts[1].id
+        if not (isinstance(ge.elt, ast.Tuple) and len(ge.elt.elts) == 2 and isinstance(ge.elt.elts[0], ast.Name) and ge.elt.elts[0].id == kname
+                and isinstance(ge.elt.elts[1], ast.Call) and isinstance(ge.elt.elts[1].func, ast.Name) and ge.elt.elts[1].func.id == 'func' and not ge.elt.elts[1].keywords):
+            raise ValueError(f'{what}: element is not (k, func(...))')
+        return _shape_of(ge.elt.elts[1].args, kname, vname, what)
+    return pool_v, pool_i, seq_shape(sbranch[0].body, 'apply_iter_items (VALUES)'), seq_shape(sbranch[0].orelse, 'apply_iter_items (ITEMS)')
+
+
 def generate(repo):
     st = _parse(repo, f'{_CORE}/store.py')
     sz = _parse(repo, f'{_CORE}/store_zip.py')
@@ -232,6 +320,7 @@ def generate(repo):
     rpool, wpool = _pool_attrs(rm, 'read_many'), _pool_attrs(wr, 'write')
     if ra[0] != rpool[0] or wa[0] != wpool[0]:
         raise ValueError('multiprocess decision and pool size read different config attributes')
+    shapes = _arg_shapes(repo)
     exc = _method(_class(ba, 'Batch'), '_apply_pool_except')
     accepted = None
     for node in exc.body:
@@ -243,7 +332,7 @@ def generate(repo):
     if accepted is None:
         raise ValueError('Batch._apply_pool_except: chunksize guard not found')
     lines = [
-        '(* GENERATED on every run by tools/sfv/props/c18.py:generate from static_frame/core/{store,store_zip,batch}.py -- do not edit. *)',
+        '(* GENERATED on every run by tools/sfv/props/c18.py:generate from static_frame/core/{store,store_zip,batch,node_iter}.py -- do not edit. *)',
         'Require Import SF.Prelude.',
         'Local Open Scope string_scope.',
         '',
@@ -261,6 +350,13 @@ def generate(repo):
         '',
         '(* batch.py: Batch._apply_pool_except raises NotImplementedError unless chunksize equals this *)',
         f'Definition c18_except_chunksize : Z := {accepted}.',
+        '',
+        '(* node_iter.py: what the applied function receives per (key, value) item: k = key, v = value, in positional order.',
+        '   pooled = what arg_gen() yields in _apply_iter_items_parallel (the key is appended to func_keys unconditionally and the result is',
+        '   zip(func_keys, executor.map(func, arg_gen(), ...))); sequential = the call in apply_iter_items *)',
+        'Inductive c18_shape := ShV | ShK | ShKV | ShVK.',
+        f'Definition c18_pool_shape (items_form : bool) : c18_shape := if items_form then {shapes[1]} else {shapes[0]}.',
+        f'Definition c18_seq_shape (items_form : bool) : c18_shape := if items_form then {shapes[3]} else {shapes[2]}.',
     ]
     return {'Gen/Gen_c18.v': '\n'.join(lines) + '\n'}
 
@@ -1419,6 +1515,307 @@ def bus_store_cases(ctx, tmp):
                        py_fail=py_fail, tags={'op': 'bus-store', 'fmt': fmt}, nontrivial=True)
 
 
+# ------------------------------------------------------------------------------------------ coverage-guided routes
+class GateMap(dict):
+    '''A mapping handed to apply_pool (node_iter.py:104-105 takes its __getitem__): every lookup passes through the schedule gate.'''
+
+    def __getitem__(self, key):
+        gate(digest(canon(key)))
+        return dict.__getitem__(self, key)
+
+
+def mapping_cases(ctx):
+    '''apply_pool(mapping) -- the non-callable route -- against the sequential map_all(mapping): same labels/order, a missing key is an error.'''
+    quick = ctx.tier == 'quick'
+    for n in ((3, 1) if quick else (3, 0, 1, 2, 4)):
+        for (iname, build, attr, kw, ctor) in iface_specs(n):
+            if attr not in ('iter_element', 'iter_tuple', 'iter_label') or 'IH' in iname or 'Bus' in iname:
+                continue
+            container = build()
+            cpairs = [(canon(k_), canon(v_)) for k_, v_ in get_items(container, attr, kw)]
+            for items_form in (False, True):
+                if attr == 'iter_label' and items_form:
+                    continue
+                name = attr + '_items' if items_form else attr
+                args = [((k_, v_) if items_form else v_) for k_, v_ in cpairs]
+                digests = [digest(a) for a in args]
+                for missing in ([None] + ([n // 2] if n else [])):
+                    table = GateMap((a, 3 * digest(a) + 1) for i, a in enumerate(args) if i != missing)
+                    fails = {} if missing is None else {digests[missing]: 'KeyError'}
+                    install_free({})
+                    try:
+                        sok, spayload = True, observe_container(getattr(container, name)(**kw).map_all(table), ctor, kw.get('axis', 0))
+                    except Exception as e:  # noqa
+                        sok, spayload = False, err_name(e)
+                    for kind, k, c in ((('threads', 2, 1), ('procs', 2, 2)) if quick else (('threads', 1, 1), ('threads', 2, 1), ('threads', 3, 2), ('procs', 2, 1), ('procs', 2, 2), ('procs', 3, n + 1))):
+                        m = n_futures(n, c, kind)
+                        for pi in (list(feasible(m, k)) if (kind == 'threads' or not quick) else [random_feasible(ctx.rng, m, k)]):
+                            def attempt(check=True, pi=pi, kind=kind, k=k, c=c):
+                                # the schedule table knows a failing lookup only through `fails` being empty here: a missing key aborts the call
+                                S = install([d for d in digests], kind, c if kind == 'procs' else 1, pi, {})
+                                S.fails = {}
+                                try:
+                                    out = getattr(container, name)(**kw).apply_pool(table, max_workers=k, chunksize=c, use_threads=(kind == 'threads'))
+                                    ok, payload = True, observe_container(out, ctor, kw.get('axis', 0))
+                                except Exception as e:  # noqa
+                                    ok, payload = False, err_name(e)
+                                if check and missing is None and check_schedule(S, list(pi), digests, f'{name} mapping') == 'timeout':
+                                    raise ScheduleTimeout('timed out', (ok, payload))
+                                return ok, payload
+                            if missing is None:
+                                ok, payload = retrying(attempt)
+                            else:
+                                install_free({})
+                                try:
+                                    out = getattr(container, name)(**kw).apply_pool(table, max_workers=k, chunksize=c, use_threads=(kind == 'threads'))
+                                    ok, payload = True, observe_container(out, ctor, kw.get('axis', 0))
+                                except Exception as e:  # noqa
+                                    ok, payload = False, err_name(e)
+                            ctx.count('mapping:' + attr, f'mapping:kind:{kind}')
+                            yield apply_case(ctx, 'api:apply_pool-mapping', iname, kw, ctor, items_form, kind, k, c, pi if missing is None else None, m, fails, cpairs,
+                                             ok, payload, sok, spayload, tags={'mapping': True}, container=container)
+
+
+BATCH_ATTR_OPS = [
+    ("loc['p']", lambda b: b.loc['p']), ("loc[:, 'y']", lambda b: b.loc[:, 'y']), ('bloc[b > 52]', None), ("drop['x']", lambda b: b.drop['x']),
+    ('drop.iloc[0]', lambda b: b.drop.iloc[0]), ("drop.loc['q']", lambda b: b.drop.loc['q']), ('sort_index(ascending=False)', lambda b: b.sort_index(ascending=False)),
+    ('sort_columns(ascending=False)', lambda b: b.sort_columns(ascending=False)), ('isin((51, 63))', lambda b: b.isin((51, 63))),
+    ('clip(lower=52, upper=70)', lambda b: b.clip(lower=52, upper=70)), ('transpose()', lambda b: b.transpose()), ('duplicated()', lambda b: b.duplicated()),
+    ('drop_duplicated()', lambda b: b.drop_duplicated()), ('round(b / 7, 1)', lambda b: round(b / 7, 1)), ('roll(1, 1)', lambda b: b.roll(1, 1)),
+    ('shift(1, fill_value=0)', lambda b: b.shift(1, fill_value=0)), ('count()', lambda b: b.count()), ('sample(1, seed=3)', lambda b: b.sample(1, seed=3)),
+    ('head(1)', lambda b: b.head(1)), ('tail(1)', lambda b: b.tail(1)), ('loc_min()', lambda b: b.loc_min()), ('iloc_min()', lambda b: b.iloc_min()),
+    ('loc_max(axis=1)', lambda b: b.loc_max(axis=1)), ('iloc_max()', lambda b: b.iloc_max()), ('cov()', lambda b: b.cov()), ('unique()', lambda b: b.unique()),
+    ('(b > 60).all()', lambda b: (b > 60).all()), ('(b > 60).any(axis=1)', lambda b: (b > 60).any(axis=1)), ("rename('n').sum()", lambda b: b.rename('n').sum()),
+    ('cumsum()', lambda b: b.cumsum()), ('cumprod(axis=1)', lambda b: b.cumprod(axis=1)), ('apply(values)', None), ('apply(values[0])', None), ('abs(-b)', lambda b: abs(-b)), ('b - 3', lambda b: b - 3), ('b == 61', lambda b: b == 61), ('61 == b', lambda b: 61 == b),
+]
+
+
+def values_step(fr):
+    return fr.values
+
+
+def values_row_step(fr):
+    return fr.values[0]
+
+
+def batch_routes_cases(ctx):
+    '''Every other public Batch route that goes through _apply_attr / _apply_pool, plus the exporters and the dictionary-like interface
+    of a pooled Batch, against the sequential Batch (Python side).'''
+    import static_frame as sf
+    quick = ctx.tier == 'quick'
+    items = batch_frames(3, 'swapped')
+    frames = [fr for _, fr in batch_frames(3, 'equal')]
+
+    def cmp_frames(a, b):
+        return a.equals(b, compare_name=True, compare_dtype=True, compare_class=True)
+    finals = [('to_frame()', lambda b: b.to_frame(), cmp_frames)]
+    for j, (name, fn) in enumerate(BATCH_ATTR_OPS):
+        if name == 'bloc[b > 52]':
+            fn = lambda b: b.bloc[items[0][1] > 52]  # noqa
+        elif name == 'apply(values)':
+            fn = lambda b: b.apply(values_step)  # noqa
+        elif name == 'apply(values[0])':
+            fn = lambda b: b.apply(values_row_step)  # noqa
+        configs = [('threads', 2, 1), ('procs', 2, 2)] if (not quick or j % 4 == 0) else [('threads', 2 + j % 2, 1)]
+        for kind, k, c in configs:
+            install_free({})
+
+            def run(batch, fn=fn):
+                try:
+                    return True, fn(batch).to_frame()
+                except Exception as e:  # noqa
+                    return False, err_name(e)
+            ok, par = run(sf.Batch(iter(items), max_workers=k, chunksize=c, use_threads=(kind == 'threads')))
+            sok, ser = run(sf.Batch(iter(items)))
+            py_fail = None
+            if ok != sok or (ok and not cmp_frames(par, ser)) or (not ok and par != ser):
+                py_fail = f'Batch(max_workers={k}) {name} .to_frame() differs from the sequential Batch: {par!r} vs {ser!r}'
+            ctx.count('batch-route:' + kind)
+            yield Case(f'api:batch-route-{kind}', {'call': f'Batch(pairs L0..L2 (names swapped), max_workers={k}, chunksize={c}, use_threads={kind == "threads"}) {name} .to_frame()',
+                                                  'observed_ok': ok, 'sequential_ok': sok},
+                       py_fail=py_fail, tags={'op': 'Batch.route', 'route': name, 'kind': kind}, nontrivial=True)
+    # reflected arithmetic operators: ContainerOperand.__r*__ hand _ufunc_binary_operator a LOCAL lambda, which cannot be pickled to a process pool
+    # (finding C18-batch-reflected-pickle).  One frame only on process pools: two unpicklable call items can deadlock CPython 3.12.1 at pool shutdown.
+    reflected = [('3 - b', lambda b: 3 - b), ('3 + b', lambda b: 3 + b), ('3 * b', lambda b: 3 * b), ('300 / b', lambda b: 300 / b), ('300 // b', lambda b: 300 // b)]
+    for name, fn in reflected:
+        for kind, k, c, its in (('threads', 2, 1, items), ('procs', 2, 1, items[:1])):
+            install_free({})
+
+            def run(batch, fn=fn):
+                try:
+                    return True, fn(batch).to_frame()
+                except Exception as e:  # noqa
+                    return False, err_name(e)
+            ok, par = run(sf.Batch(iter(its), max_workers=k, chunksize=c, use_threads=(kind == 'threads')))
+            sok, ser = run(sf.Batch(iter(its)))
+            same = ok == sok and (cmp_frames(par, ser) if ok else par == ser)
+            tags = {'op': 'Batch.route', 'route': name, 'kind': kind}
+            if kind == 'procs':
+                tags['finding'] = FINDING_REFLECTED      # by construction: reflected arithmetic operator + process pool
+            ctx.count('batch-reflected:' + kind)
+            yield Case(f'api:batch-reflected-{kind}', {'call': f'{name}  with b = Batch({len(its)} pairs, max_workers={k}, use_threads={kind == "threads"}); .to_frame()',
+                                                      'observed': [ok, repr(par)[:200]], 'sequential_ok': sok},
+                       py_fail=None if same else f'{name}: pooled Batch gave {par!r}, sequential Batch gave {ser!r}', tags=tags, nontrivial=True)
+    # exporters / dictionary-like interface / constructors of a pooled Batch
+    exporters = [
+        ('from_frames(...).sum().to_frame()', lambda mk: mk(True).sum().to_frame(), cmp_frames),
+        ('keys()', lambda mk: list(mk(False).sum().keys()), None), ('__iter__', lambda mk: list(iter(mk(False).sum())), None),
+        ('values', lambda mk: [v.values.tolist() for v in mk(False).sum().values], None),
+        ('shapes', lambda mk: (mk(False) * 2).shapes.to_pairs(), None),
+        ('to_frame(axis=1)', lambda mk: mk(False).sum().to_frame(axis=1), cmp_frames),
+        ("to_frame(index=('u','v','w'))", lambda mk: mk(False).sum().to_frame(index=('u', 'v', 'w')), cmp_frames),
+        ('2-D to_frame(index=IndexAutoFactory)', lambda mk: (mk(False) * 2).to_frame(index=sf.IndexAutoFactory), cmp_frames),
+        ('2-D to_frame(axis=1)', lambda mk: (mk(False) * 2).to_frame(axis=1), cmp_frames),
+        ('to_bus()', lambda mk: [(l, f.values.tolist(), f.name) for l, f in (mk(False) * 2).to_bus().items()], None),
+        ('display()', lambda mk: str((mk(False) * 2).display()).count('Frame'), None),
+    ]
+    for name, fn, cmp_ in exporters:
+        for kind, k, c in (('threads', 2, 1), ('procs', 3, 2)):
+            install_free({})
+
+            def mk_par(from_frames, kind=kind, k=k, c=c):
+                if from_frames:
+                    return sf.Batch.from_frames(frames, max_workers=k, chunksize=c, use_threads=(kind == 'threads'))
+                return sf.Batch(iter(items), max_workers=k, chunksize=c, use_threads=(kind == 'threads'))
+
+            def mk_seq(from_frames):
+                return sf.Batch.from_frames(frames) if from_frames else sf.Batch(iter(items))
+
+            def run(mk, fn=fn):
+                try:
+                    return True, fn(mk)
+                except Exception as e:  # noqa
+                    return False, err_name(e)
+            ok, par = run(mk_par)
+            sok, ser = run(mk_seq)
+            same = ok == sok and ((cmp_(par, ser) if cmp_ else par == ser) if ok else par == ser)
+            ctx.count('batch-export:' + kind)
+            yield Case(f'api:batch-export-{kind}', {'call': f'Batch(..., max_workers={k}, chunksize={c}, use_threads={kind == "threads"}) -> {name}', 'observed_ok': ok, 'sequential_ok': sok},
+                       py_fail=None if same else f'{name}: pooled Batch gave {par!r}, sequential Batch gave {ser!r}',
+                       tags={'op': 'Batch.export', 'route': name, 'kind': kind}, nontrivial=True)
+
+
+def bus_own_config_cases(ctx, tmp):
+    '''to_zip_* with config=None falls back to the Bus's own config (store_client_mixin.py:48-49): worker settings given at construction; and labels
+    that are not strings with no label_encoder: RuntimeError with and without workers (the archive is not half-labelled).'''
+    import static_frame as sf
+    frames = [sf.Frame(np.array([[i, i + 1], [i * 2, i * 3]], dtype=np.int64), index=('p', 'q'), columns=('x', 'y'), name=f'B{i}') for i in range(4)]
+    iframes = [f.rename(i * 10) for i, f in enumerate(frames)]
+    serial = 0
+    for fmt in ('tsv', 'pickle'):
+        for k, c in ((2, 1), (3, 2)):
+            for variant, fs in (('own-config', frames), ('int-labels-no-encoder', iframes)):
+                serial += 1
+                install_free({})
+
+                def run(workers):
+                    fp = os.path.join(tmp, f'own{serial}_{int(workers)}.zip')
+                    cfg = sf.StoreConfig(index_depth=1, write_max_workers=(k if workers else None), write_chunksize=(c if workers else 1),
+                                         read_max_workers=(k if workers else None), read_chunksize=(c if workers else 1))
+                    try:
+                        bus = sf.Bus.from_frames(fs, config=cfg)
+                        getattr(bus, f'to_zip_{fmt}')(fp)
+                        back = getattr(sf.Bus, f'from_zip_{fmt}')(fp, config=cfg)
+                        return True, [(canon(l), canon(f.name), f.values.tolist()) for l, f in back.items()]
+                    except Exception as e:  # noqa
+                        return False, err_name(e)
+                    finally:
+                        if os.path.exists(fp):
+                            os.remove(fp)
+                ok, par = run(True)
+                sok, ser = run(False)
+                ctx.count('bus-own-config:' + variant)
+                yield Case(f'api:bus-own-config-{fmt}',
+                           {'call': f'Bus.from_frames(frames, config=StoreConfig(index_depth=1, write_max_workers={k}, write_chunksize={c}, read_max_workers={k}, read_chunksize={c}))'
+                                    f'.to_zip_{fmt}(fp); Bus.from_zip_{fmt}(fp, config=same).items()', 'variant': variant, 'observed': [ok, repr(par)], 'without_workers': [sok, repr(ser)]},
+                           py_fail=None if (ok, par) == (sok, ser) else f'with workers {par}, without {ser}', tags={'op': 'bus-store', 'fmt': fmt, 'variant': variant}, nontrivial=True)
+
+
+def bus_persist_cases(ctx, tmp):
+    '''Bus over a zipped store read with workers: every way Bus._store_reader drives read_many / read (max_persist None, > 1 in batches, == 1 one
+    pool per label), selections in any order, non-string labels through label_encoder/decoder, FrameGO conversion of pickles.'''
+    import static_frame as sf
+    from static_frame.core.store_zip import StoreZipPickle
+    quick = ctx.tier == 'quick'
+    n = 5
+    serial = 0
+    for fmt, labels, enc in (('tsv', [f'M{i}' for i in range(n)], None), ('pickle', [10 * i + 3 for i in range(n)], (str, int)), ('csv', [f'M{i}' for i in range(n)], None)):
+        frames = [sf.Frame(np.array([[700 + 13 * i, 1], [2, 3]], dtype=np.int64), index=('p', 'q'), columns=('x', 'y'), name=labels[i]) for i in range(n)]
+        ids = {labels[i]: 700 + 13 * i for i in range(n)}
+        extra = dict(label_encoder=enc[0], label_decoder=enc[1]) if enc else {}
+        fp = os.path.join(tmp, f'persist_{fmt}.zip')
+        getattr(sf.Bus.from_frames(frames), f'to_zip_{fmt}')(fp, config=sf.StoreConfig(index_depth=1, **extra))
+        archive = [(lb, ids[lb]) for lb in labels]
+        L = labels
+        selections = [('items()', None), ('iloc[[3, 0, 2]]', [3, 0, 2]), ('iloc[::-1]', [4, 3, 2, 1, 0]), ('iloc[1:4]', [1, 2, 3]), ('loc[label 2]', 2),
+                      ('[label 1]', (lambda bus: [(L[1], bus[L[1]])], [1])), ('[[label 3, label 0]]', (lambda bus: list(bus[[L[3], L[0]]].items()), [3, 0])),
+                      ('values', (lambda bus: list(zip(L, bus.values)), [0, 1, 2, 3, 4])), ('drop.iloc[1].items()', (lambda bus: list(bus.drop.iloc[1].items()), [0, 2, 3, 4])),
+                      ('reversed', (lambda bus: [(lb, bus.loc[lb]) for lb in reversed(bus)], [4, 3, 2, 1, 0])),
+                      ('items() twice', (lambda bus: (list(bus.items()), list(bus.items()))[1], [0, 1, 2, 3, 4]))]
+        for mp in (None, 1, 2, 3, 7):
+            for k, c in (((2, 1), (3, 2)) if quick else ((1, 1), (2, 1), (2, 2), (3, 2), (4, 6))):
+                for sname, sel in selections:
+                    serial += 1
+                    if quick and serial % (3 if fmt == 'tsv' else 5):
+                        continue
+                    install_free({})
+
+                    def run(workers, mp=mp, sel=sel):
+                        cfg = sf.StoreConfig(index_depth=1, read_max_workers=(k if workers else None), read_chunksize=(c if workers else 1), **extra)
+                        try:
+                            bus = getattr(sf.Bus, f'from_zip_{fmt}')(fp, config=cfg, max_persist=mp)
+                            if sel is None:
+                                got = list(bus.items())
+                            elif isinstance(sel, tuple):
+                                got = sel[0](bus)
+                            elif isinstance(sel, int):
+                                got = [(labels[sel], bus.loc[labels[sel]])]
+                            else:
+                                got = list(bus.iloc[sel].items())
+                            return True, [(canon(l), canon(f.name), int(f.values[0, 0])) for l, f in got]
+                        except Exception as e:  # noqa
+                            return False, err_name(e)
+                    ok, par = run(True)
+                    sok, ser = run(False)
+                    want = labels if sel is None else ([labels[sel]] if isinstance(sel, int) else [labels[i] for i in (sel[1] if isinstance(sel, tuple) else sel)])
+                    py_fail = None
+                    if (ok, par) != (sok, ser):
+                        py_fail = f'Bus with read workers gave {par}, without workers {ser}'
+                    elif ok and max(1, len(want)) <= (mp or 99) and [t[0] for t in par] != [canon(x) for x in want]:
+                        py_fail = f'Bus labels {[t[0] for t in par]} are not the requested {want}'
+                    elif ok and any(t[0] != t[1] for t in par):
+                        py_fail = f'a Bus label is paired with the frame of another label: {par}'     # every frame was stored under its own name
+                    obs = res_lit(ok, [(t[1], t[2]) for t in par] if ok else par, vals_lit)
+                    sterm = f'c18_read_S [] {pairs_lit(archive)} {vals_lit(want)} {obs}'
+                    ctx.count(f'bus-persist:{fmt}', f'bus-persist:max_persist:{mp}')
+                    yield Case(f'api:bus-persist-{fmt}',
+                               {'call': f'Bus.from_zip_{fmt}(fp, config=StoreConfig(index_depth=1, read_max_workers={k}, read_chunksize={c}'
+                                        f'{", label_encoder=str, label_decoder=int" if enc else ""}), max_persist={mp}).{sname}', 'archive': archive,
+                                'observed': [ok, repr(par)], 'without_workers': [sok, repr(ser)]},
+                               s=sterm, py_fail=py_fail, tags={'op': 'bus-persist', 'fmt': fmt, 'max_persist': mp}, nontrivial=True)
+    # pickled frames delivered as another container class
+    fp = os.path.join(tmp, 'persist_go.zip')
+    frames = [sf.Frame(np.array([[700 + 13 * i, 1]], dtype=np.int64), columns=('x', 'y'), name=f'G{i}') for i in range(4)]
+    StoreZipPickle(fp).write(((f.name, f) for f in frames), config=sf.StoreConfig())
+    for ctype in (sf.FrameGO, sf.Frame, sf.FrameHE):
+        for k, c in ((1, 1), (2, 1), (3, 2)):
+            for labels in (['G2', 'G0', 'G3'], ['G1']):
+                def run(workers):
+                    try:
+                        out = list(StoreZipPickle(fp).read_many(labels, config=sf.StoreConfig(read_max_workers=(k if workers else None), read_chunksize=c), container_type=ctype))
+                        return True, [(type(o).__name__, o.name, int(o.values[0, 0])) for o in out]
+                    except Exception as e:  # noqa
+                        return False, err_name(e)
+                ok, par = run(True)
+                sok, ser = run(False)
+                ctx.count('store-pickle-container_type')
+                yield Case('api:store-pickle-container_type',
+                           {'call': f'StoreZipPickle(fp).read_many({labels}, config=StoreConfig(read_max_workers={k}, read_chunksize={c}), container_type={ctype.__name__})',
+                            'observed': [ok, repr(par)], 'serial': [sok, repr(ser)]},
+                           py_fail=None if (ok, par) == (sok, ser) and (not ok or [t[0] for t in par] == [ctype.__name__] * len(labels)) else
+                           f'read_many with workers gave {par}, serial {ser}', tags={'op': 'store.read_many', 'container_type': ctype.__name__}, nontrivial=True)
+
+
 # ------------------------------------------------------------------------------------------ StoreConfigMap decision table
 def config_cases(ctx):
     import static_frame as sf
@@ -1463,6 +1860,49 @@ def config_cases(ctx):
                                m=f'c18_config_M {wl(default)} {mlit} [0; 1; 7] {obs}',
                                s=f'c18_config_S {wl(default)} {mlit} {obs}',
                                tags={'op': 'StoreConfigMap'}, nontrivial=bool(flipped))
+
+
+def _store_config_he():
+    from static_frame.core.store import StoreConfigHE
+    return StoreConfigHE()
+
+
+def config_route_cases(ctx):
+    '''The other ways a StoreConfigMap comes to be: a plain dict initializer (the default is then StoreConfigMap._DEFAULT: no workers), from_frames
+    (the map is owned unchecked; every derived config has no workers), a default or an entry of the wrong class.'''
+    import static_frame as sf
+    frames = [sf.Frame(np.array([[1, 2]], dtype=np.int64), name=f'k{i}') for i in range(2)]
+    d0 = '(mk_wcfg 0 0 None 1 None 1)'
+
+    def setl(c):
+        return f'({lit.oz(c.read_max_workers)}, {lit.z(c.read_chunksize)}, {lit.oz(c.write_max_workers)}, {lit.z(c.write_chunksize)})'
+    routes = [
+        ('from_initializer({k0: StoreConfig(index_depth=1)})', lambda: sf.StoreConfigMap.from_initializer({'k0': sf.StoreConfig(index_depth=1)}), f'[(0, {d0})]'),
+        ('from_initializer({k0: StoreConfig(read_max_workers=2)})', lambda: sf.StoreConfigMap.from_initializer({'k0': sf.StoreConfig(read_max_workers=2)}),
+         '[(0, (mk_wcfg 0 0 (Some 2) 1 None 1))]'),
+        ('from_initializer({k0: StoreConfig(write_chunksize=3)})', lambda: sf.StoreConfigMap.from_initializer({'k0': sf.StoreConfig(write_chunksize=3)}),
+         '[(0, (mk_wcfg 0 0 None 1 None 3))]'),
+        ('from_frames(frames)', lambda: sf.StoreConfigMap.from_frames(frames), f'[(0, {d0}); (1, {d0})]'),
+        ('from_initializer(None)', lambda: sf.StoreConfigMap.from_initializer(None), '[]'),
+        ('from_initializer(StoreConfig(read_max_workers=3, read_chunksize=2))', lambda: sf.StoreConfigMap.from_initializer(sf.StoreConfig(read_max_workers=3, read_chunksize=2)), None),
+        ('StoreConfigMap(default=StoreConfigHE())', lambda: sf.StoreConfigMap(default=_store_config_he()), 'class'),
+        ('StoreConfigMap({k0: StoreConfigHE()})', lambda: sf.StoreConfigMap({'k0': _store_config_he()}), 'class'),
+    ]
+    for name, build, mlit in routes:
+        try:
+            cm = build()
+            ok, obs = True, '(Ok ' + lit.lst([setl(cm[f'k{q}']) for q in (0, 1, 7)]) + ')'
+        except Exception as e:  # noqa
+            ok, obs = False, f'(Err {lit.s(err_name(e))})'
+        py_fail = None
+        if mlit == 'class' and (ok or 'ErrorInitStoreConfig' not in obs):
+            py_fail = f'{name} was accepted / failed differently: {obs}'
+        default = '(mk_wcfg 0 0 (Some 3) 2 None 1)' if mlit is None else d0
+        ctx.count('config-route')
+        yield Case('kernel:StoreConfigMap-routes', {'call': name + '; cm[k0], cm[k1], cm[k7]', 'observed': obs},
+                   m=(f'c18_config_M {default} {mlit or "[]"} [0; 1; 7] {obs}' if mlit != 'class' else None),
+                   s=(f'c18_config_S {default} {mlit or "[]"} {obs}' if mlit != 'class' else None),
+                   py_fail=py_fail, tags={'op': 'StoreConfigMap'}, nontrivial=True)
 
 
 # ------------------------------------------------------------------------------------------ driver
@@ -1531,6 +1971,7 @@ def _cases(ctx):
         yield from apply_pool_cases(ctx, 'threads', n, specs, [2, 1, 3, 4, 5, 6, 7, 8], cs_threads, 'light' if (quick and n == 2) else 'full',
                                     'api:apply_pool-threads', rot)
     yield from config_cases(ctx)
+    yield from config_route_cases(ctx)
     yield from malformed_cases(ctx)
     if quick:
         specs3 = iface_specs(3)
@@ -1552,6 +1993,7 @@ def _cases(ctx):
         yield from apply_pool_cases(ctx, 'procs', 5, rotate(iface_specs(5), 1), [2, 3, 4], cs_all, 'light', 'api:apply_pool-procs', rot, forms=(bool(rot[0] % 2),))
     yield from namedtuple_cases(ctx)
     yield from sentinel_cases(ctx)
+    yield from mapping_cases(ctx)
     yield from free_cases(ctx)
     # Batch
     yield from batch_cases(ctx, 'threads', (2, 0, 1, 3) if quick else (2, 0, 1, 3, 4), ks, 'full' if not quick else 'light', rot, cs_threads)
@@ -1562,11 +2004,14 @@ def _cases(ctx):
     yield from batch_cases(ctx, 'procs', (2,) if quick else (2, 3), [2] if quick else [2, 3], 'light', rot, cs_all,
                            variants=(BATCH_VARIANTS[2], BATCH_VARIANTS[5]) if quick else BATCH_VARIANTS[1:], reduced=True)
     yield from batch_attr_cases(ctx)
+    yield from batch_routes_cases(ctx)
     # zipped stores
     tmp = tempfile.mkdtemp(prefix='c18_')
     try:
         yield from store_cases(ctx, (0, 1, 2, 3) if quick else (0, 1, 2, 3, 4), [None, 0, 1, 2, 3] if quick else [None, 0, 1, 2, 3, 4, 8], 'light', rot, tmp)
         yield from bus_store_cases(ctx, tmp)
+        yield from bus_persist_cases(ctx, tmp)
+        yield from bus_own_config_cases(ctx, tmp)
     finally:
         shutil.rmtree(tmp, ignore_errors=True)
         global _S
